@@ -430,6 +430,7 @@ func c10Prop(c c10Case) common.Result {
 		if m.Sender >= 1 && m.Sender <= 4 {
 			w.sender = cl.Stacks[m.Sender-1]
 		}
+		cl.topUp() // a message that verifies may make the replica leader: its proposer must find client commands
 		before := sub.protoState()
 		var panicMsg, stack string
 		desc := fmt.Sprintf("%s %s cache=%d message #%d: %s from sender %d, replica in view %d", c.Rules, c.Crypto, c.Cache, i, m.RPC, m.Sender, before.View)
